@@ -91,7 +91,13 @@ def main(tier, replay=None):
         chk.oblige("build:delta-with-hooks", False, out[-2000:])
         return chk.finish()
     vlib.build_native()
-    vlib.standard_proof_obligations(chk, "PropC19", gen_names=["vte"])
+    vlib.standard_proof_obligations(chk, "PropC19", gen_names=["vte", "links"])
+    ok, out = vlib.build_vmodel()
+    if not ok:
+        chk.oblige("build:vmodel", False, out[-2000:])
+        return chk.finish()
+    vm = vlib.vmodel()
+    url_mism = url_n = 0
     cases = [json.load(open(replay))["case"]] if replay else gen_cases(tier, chk.seed)
     chk.rule = ("generated diffs / logs x 10 modes (unified, side-by-side, line numbers, narrow widths, wrapping off) x 5 file-link "
                 "templates x file-transformation x relative-paths x GIT_PREFIX (unset, empty, three sub-directories), logs with a diff-stat block naming the diff's files; non-trivial = at least one link emitted")
@@ -175,9 +181,24 @@ def main(tier, replay=None):
                     why.append(f"row {i}: file link path {path!r} is not the absolute path of a file of this diff ({sorted(valid_paths)[:3]})")
             elif c["single"] and len(valid_paths) >= 1:
                 pass
+            if path in valid_paths:
+                # correspondence with Links.v: the URL is the model's instantiation of the template for this path and the
+                # number the link shows (none if it shows none)
+                url_n += 1
+                # the number a link shows: the link text is a number (line-number column), or `path:number` (hunk header)
+                mnum = re.search(r":(\d+)$", text.strip())
+                shown = text.strip() if text.strip().isdigit() else (mnum.group(1) if mnum else "-")
+                rep = vm.ask("file_url", vlib.hexs(fmt), vlib.hexs(path), shown)
+                if not rep.startswith("OK") or bytes.fromhex(rep.split("\t")[1]).decode("utf-8", "replace") != url:
+                    url_mism += 1
+                    if url_mism <= 3:
+                        vlib.log(f"[C19] link target: template {fmt!r} path {path!r} shown {shown!r}: model {rep} binary {url!r}")
             if "{line}" in fmt and text.strip().isdigit():
                 if m.group("line") != text.strip():
                     why.append(f"row {i}: the link of line number {text.strip()!r} points at line {m.group('line')!r}")
+            elif "{line}" in fmt and re.search(r":(\d+)$", text.strip()):
+                if m.group("line") != re.search(r":(\d+)$", text.strip()).group(1):
+                    why.append(f"row {i}: the link around {text!r} points at line {m.group('line')!r}")
             elif "{line}" in fmt and m.group("line") != "" and not re.search(r"\d", text):
                 # a link that shows no number (a path in a header or a diff-stat line) names no line
                 why.append(f"row {i}: the link around {text!r} shows no line number but points at line {m.group('line')!r}")
@@ -186,6 +207,9 @@ def main(tier, replay=None):
         if why_known:
             chk.violation({"property": PID, "why": "; ".join(why_known[:3]), "case": c, "args": args_of(c, True), "input": "\n".join(lines)[:3000],
                            "finding_class": "relative-paths: name of a section without ---/+++ lines joined to the user's directory"})
+    chk.oblige("correspondence:file-link-url", url_mism == 0, f"{url_mism} of {url_n} file links differ from the model's instantiation of the template")
+    chk.extra["traces_validated_against_impl"] = url_n - url_mism
+    vm.close()
     chk.assumptions = ["working directory of delta = an empty directory outside any repository; absolute path = cwd/path",
                        "link text/targets are read from the decoded cells' link attribute (independent terminal model)"]
     return chk.finish()
